@@ -5,10 +5,10 @@ props=[json.loads(l) for l in open('/verif/properties.jsonl')]
 # id -> (technique, level text, level note)
 CLAIMED={
  'C09':("exhaustive language enumeration (LANG): every AST of a bounded grammar fragment in every rendering variant, every token string up to a length bound, every single-token corruption, against an independent three-valued parser",
-        "~8k ASTs x all spacing/case/quoting variants must parse to the intended structure and survive print->parse; every token string of length<=4/5 over 36 tokens and every single-token corruption judged by the core/liberal model grammars; never a panic",
+        "~8k ASTs x all spacing/case/quoting variants must parse to the intended structure and survive print->parse; every token string of length<=4/5 over 36 tokens and every single-token corruption judged by the core/liberal model grammars; every Unicode scalar value in member names; numbers around every width boundary as indices and literals; never a panic",
         "bounded AST size and token-string length; inputs between the core and liberal grammars are not judged"),
  'C16':("exhaustive language enumeration (LANG) for key paths against an independent three-valued parser",
-        "every list of <=3 elements in all spacing variants, every token string of length<=6/7 over 14 tokens, every single-token corruption; print->parse",
+        "every list of <=3 elements in all spacing variants, every token string of length<=6/7 over 14 tokens, every single-token corruption, every Unicode scalar value in plain and quoted names, numbers around every width boundary; print->parse",
         "bounded list length and token-string length"),
 
  'C11':("exhaustive enumeration of inputs x configurations (all 2^k text/binary choices), relational oracle",
@@ -16,7 +16,7 @@ CLAIMED={
         "bounded corpus; what a text denotes is decided by the model parser"),
 
  'C02':("exhaustive language enumeration (LANG): all token strings up to a length bound, all single-token corruptions, all spelling variants, against an independent recogniser/evaluator",
-        "every token string of length<=5/6 over a 32-token alphabet, every single-token corruption of every well-formed rendering, every whitespace/number/escape spelling, every \\uXXXX code unit and every Unicode scalar value",
+        "every token string of length<=5/6 over a 32-token alphabet, every single-token corruption of every well-formed rendering, every whitespace/number/escape spelling, every \\uXXXX code unit, every surrogate-pair escape, every Unicode scalar value, all 256 byte values inserted/substituted at every position",
         "bounded token-string length; numbers limited to the spelling list (correct rounding checked against Rust std's parser)"),
 
  'C20':("exhaustive ascending depth sweep in crash-isolated worker processes (every depth up to a bound, then a fixed grid) plus exhaustive enumeration of extreme integer arguments",
@@ -24,11 +24,11 @@ CLAIMED={
         "between grid points above the exhaustive bound depths are not covered; results are mem::forget-ed so recursive Drop is outside the operation under test"),
 
  'C07':("explicit-state breadth-first search over the real transition functions (histories), cross-checked with a stateright model of the same transition system",
-        "all chains of library operations up to depth 3/4 from 26 initial documents; every state deduplicated on full bytes; every transition validated against the tree model and the strict validator; stateright BFS must agree on unique-state count and verdict at depth 2",
+        "all chains of library operations up to depth 3/4 from the initial documents (small universe + hand-shaped and 40-member seeds); every state deduplicated on full bytes; every transition validated against the tree model and the strict validator; stateright BFS must agree on unique-state count and verdict at depth 2",
         "depth bound and successor size cap (checked but not expanded beyond the cap)"),
 
  'C08':("exhaustive enumeration of programs x inputs (paths up to a step bound x document universe) against an independent tree evaluator",
-        "every path of the enumerated grammar fragments applied to every document of the universe/subset; item sequences compared in order with repetitions; three-valued where the README is silent",
+        "every path of the enumerated grammar fragments applied to every document of the universe/subset (built from the model AST and, where jsonb's parser reads the text differently, as parsed); item sequences compared in order with repetitions; three-valued where the README is silent; arithmetic that certainly has to be evaluated must be an error",
         "bounded path length (<=3/4 steps, one filter per path, expression depth<=2) and document universe"),
  'C15':("exhaustive enumeration of programs x inputs x configurations (4 modes, 11 entry points), relational oracle",
         "the C08 enumeration evaluated through all modes and convenience functions and related to each other",
@@ -60,10 +60,10 @@ CLAIMED={
         "every ordered pair of the containment universe against the model rules; reflexivity/transitivity for all triples by bit-set closure on the implementation's matrix",
         "bounded universe (~3.5k/9k documents)"),
  'C13':("exhaustive enumeration of list pairs against a multiset model plus algebraic laws",
-        "all lists up to length 3/4 over an 8-element collision alphabet, all ordered pairs",
+        "all lists up to length 3/4 over a 13-element collision alphabet, all ordered pairs; a second universe with every operand in four forms (model bytes, own-encoder bytes, text, escaped text)",
         "bounded list length and alphabet"),
  'C14':("exhaustive pair relation check: key order vs compare, with model of the documented key format to classify findings",
-        "every ordered pair of the universe; relational oracle (key order == compare), three recorded design-level findings identified by deviation class",
+        "every ordered pair of the universe; relational oracle (key order == compare), two recorded design-level findings identified by deviation class",
         "bounded universe; compare itself is decided by C04"),
  'C18':("exhaustive enumeration of number sub-universes (all 2^32 u32/i32/f32/f64-high-word patterns), all byte strings <=3 bytes, full order matrix on a boundary set",
         "complete 2^16 (quick) / 2^32 (thorough) codec sub-universes, every malformed byte string of length<=3, the full order relation and all triples on B64",
